@@ -131,8 +131,8 @@ func Valid(p string, k Kind) bool {
 }
 
 var (
-	slashV   = regexp.MustCompile(`\Av[0-9.]+\z`)
-	goodN    = regexp.MustCompile(`\A[1-9][0-9]*\z`)
+	slashV = regexp.MustCompile(`\Av[0-9.]+\z`)
+	goodN  = regexp.MustCompile(`\A[1-9][0-9]*\z`)
 )
 
 // Split is the documented SplitPathVersion. unspecified is set for the one
